@@ -37,8 +37,8 @@ def collect_apps(formulas, names):
         if z3.is_app(t):
             if t.num_args() > 0 or True:
                 n = t.decl().name()
-                if n in out and t.num_args() > 0:
-                    out[n].append(t)
+                if n in out and (t.num_args() > 0 or t.decl().kind() == z3.Z3_OP_UNINTERPRETED and n.isupper()):
+                    out[n].append(t)   # applications, and named constants written in capitals (MSG_NONE)
             todo.extend(t.children())
         # quantifier bodies are not searched: their terms contain bound variables
     return out
